@@ -91,6 +91,8 @@ def c15(work, tier, seed):
             cfg = {"tokenAuth": True, "smartCard": False, "auth": "openid", "sel": "unsigned", "hosts": [["H1", ":", "PA"], ["H1", ":", "PB"], ["H1", ":", "PE"]], "verifyIp": True, "idle": 0,
                    "store": store, "split": False, "rdpDefaults": True, "userTok": ut, "template": "{{ username }}::{{ token }}"}
             bursts.append({"id": "bu%s%s" % (ut, store), "kind": "burst", "cfg": cfg, "session": "authed", "param": "listed", "user": "", "peerIP": "", "xff": "", "replay": False})
+            # the running gateway, configured through its file, asked about tokens of both modes made with its keys / another key
+            bursts.append({"id": "ux%s%s" % (ut, store), "kind": "usertokx", "cfg": cfg, "session": "authed", "param": "listed", "user": "", "peerIP": "", "xff": "", "replay": False})
     bout, brep, bres = fa.generic("C15", work, tier, seed, "oidc", "OidcTrace", bursts, design, lambda v: "%s/%s/issue" % (v["guard"], v["a"]),
                                   "user tokens in files issued at the same time", owns=lambda v: guard_property(v["guard"]) == "C15", jobs=4, tag="c15-issue")
     out.violations += bout.violations
